@@ -308,6 +308,20 @@ def rule_R6(src):
                 n += 1
                 changed = True
                 break
+            mch = re.match(r'^(.*)\.chunks\((.*)\)$', expr)
+            if mch and '.zip(' not in expr:
+                coll, kexpr = _strip_iter(mch.group(1)), mch.group(2)
+                if enum:
+                    parts = _split_top(pat[1:-1]) if pat.startswith('(') else None
+                    if not parts or len(parts) != 2:
+                        raise Undecided('R6: enumerate pattern %r' % pat)
+                    idx, pat = parts[0].strip(), parts[1].strip()
+                new = 'for %s in 0..vx_num_chunks((%s).len(), %s)' % (idx, coll, kexpr)
+                binds = ' let %s = vx_chunk(&(%s), %s, %s);' % (pat, coll, kexpr, idx)
+                src = src[:kw] + _pad(new, header) + '{' + binds + src[brace + 1:]
+                n += 1
+                changed = True
+                break
             comps = _split_zip(expr)
             first = comps[0]
             simple_path = re.fullmatch(r'[A-Za-z_][A-Za-z0-9_]*(?:\.[A-Za-z_0-9]+)*', first) is not None
@@ -557,6 +571,8 @@ def extract_item(kv):
     text = rl.strip_comments(text)
     text = re.sub(r'#\[[^\]]*\]\s*', '', text)   # field/serde attributes
     text = re.sub(r'\bpub\((?:crate|super)\)', 'pub', text)   # visibility is irrelevant in the single-file crate
+    if kv.get('attr'):
+        text = ''.join('#[%s]\n' % a for a in kv['attr'].split(';;')) + text
     if kind in ('struct', 'enum') and kv.get('derive'):
         text = '#[derive(%s)]\n' % kv['derive'] + text
     if kind == 'const' and kv.get('_ensures'):
@@ -652,6 +668,25 @@ def splice(u, ex, probe=False, mutant=None):
     undeclared = [k + 1 for k in range(len(loops)) if (k + 1) not in u.loops]
     mask = rl.code_mask(body)
     for where, nth, anchor, lines in u.anchors:
+        ms = re.match(r'@(before-loop|after-loop|loop-body)\s+(\d+)$', anchor)
+        if ms:
+            k = int(ms.group(2))
+            if k < 1 or k > len(loops):
+                raise Undecided('lost anchor: %s has %d loops, contract names loop %d' % (u.id, len(loops), k))
+            kw, brace = loops[k - 1]
+            if ms.group(1) == 'before-loop':
+                ls = body.rfind('\n', 0, kw) + 1
+                inserts.append((ls, '\n'.join(lines) + '\n', 'ghost'))
+            elif ms.group(1) == 'loop-body':
+                le = body.find('\n', brace)
+                le = len(body) if le < 0 else le
+                inserts.append((le, '\n' + '\n'.join(lines), 'ghost'))
+            else:
+                close = rl.match_bracket(body, brace, mask)
+                le = body.find('\n', close)
+                le = len(body) if le < 0 else le
+                inserts.append((le, '\n' + '\n'.join(lines), 'ghost'))
+            continue
         if anchor in ('@tail', '@start'):
             if anchor == '@start':
                 inserts.append((0, '\n' + '\n'.join(lines) + '\n', 'ghost'))
